@@ -141,6 +141,7 @@ PROBES = [
      dict(op='set', loc=2, k=4, v=42), dict(op='eq', loc=1, o=2), dict(op='ne', loc=1, o=2), dict(op='eqx', loc=1, o=2),
      dict(op='updatebad', loc=1, k=2, v=21, k2=3), dict(op='items', loc=1), dict(op='len', loc=1),
      dict(op='update', loc=1, k=2, v=22, k2=3, v2=31), dict(op='items', loc=1), dict(op='keys', loc=1),
+     dict(op='popkeys', loc=1, ks=[1, 2, 1], d=77), dict(op='items', loc=1), dict(op='popkeysd', loc=1, ks=[4, 4], d=77),
      dict(op='update0', loc=1), dict(op='updatekwonly', loc=1, k=1, v=12, k2=4, v2=41), dict(op='updateitems', loc=2, k=2, v=21, k2=3, v2=33),
      dict(op='items', loc=1), dict(op='items', loc=2)],
 ]
@@ -162,7 +163,7 @@ def usable_ops(ops, backend, keyset, valset=None):
             continue
         if o['op'] == 'values' and valset == 'nonev':
             continue          # (a bare None in values() cannot be attributed to a key)
-        if o['op'] in ('eq', 'ne', 'eqx', 'xeq') and valset in ('func', 'mainfunc'):
+        if o['op'] in ('eq', 'ne', 'eqx', 'xeq') and valset in ('func', 'mainfunc', 'maininst'):
             continue          # functions compare by identity: two archives holding "the same" function are not ==
         out.append(o)
     return out
